@@ -122,7 +122,9 @@ pub fn run(ctx: &Ctx) -> Report {
         every URI the rpki-rs parser accepts goes through the real path \
         functions: store TA path (rsync and https), stored point path \
         (rsync repository and per-RRDP-repository), rsync module directory \
-        and file path, RRDP archive path, dump directory; oracle: the \
+        and file path, RRDP archive path, dump directory (and, end to \
+        end, the store dump of five publication points on one host whose \
+        URIs differ in module, directory or file name only); oracle: the \
         lexically normalised path lies strictly inside the cache (dump) \
         directory, and over all pairs equal normalised paths imply \
         equivalent URIs (authority case-insensitive, rest exact); \
@@ -226,6 +228,64 @@ pub fn run(ctx: &Ctx) -> Report {
                     "{func}: non-equivalent URIs {list:?} share the file {}", path.display()
                 ), json!({"func": func, "uris": list}));
             }
+        }
+    }
+    // The store dump, end to end: publication points on one host whose
+    // URIs differ in one component only (module; directory; file) are
+    // validated, stored and dumped - every stored object must survive in a
+    // file of its own under the dump directory.
+    {
+        use crate::rpkigen::{Builder, CaSpec, Gen, ObjSpec, Stale, TalSpec, TreeSpec};
+        rep.evaluations += 1;
+        rep.nontrivial += 1;
+        let r = util::catch(|| -> Result<usize, String> {
+            let gen = Gen::load();
+            let mut ta = CaSpec::new("ta0", 0, "dump.c30.example", "repo");
+            ta.v4 = vec![(std::net::Ipv4Addr::new(10, 0, 0, 0), 8)];
+            ta.asns = vec![(64496, 64600)];
+            ta.objs = vec![ObjSpec::roa("r", 64496, "10.0.0.0", 16, 16)];
+            // (name, module, directory): same directory and file names in two modules; two directories in one module
+            for (i, (name, module, dir)) in [("cax", "repo", "ca/"), ("cay", "repo-2", "ca/"), ("caz", "repo", "cb/"), ("caw", "repo-2", "cb/")].iter().enumerate() {
+                let mut ca = CaSpec::new(name, 1 + i, "dump.c30.example", module);
+                ca.dir = dir.to_string();
+                ca.v4 = vec![(std::net::Ipv4Addr::new(10, 1 + i as u8, 0, 0), 16)];
+                ca.asns = vec![(64500 + i as u32, 64500 + i as u32)];
+                ca.objs = vec![ObjSpec::roa("r", 64500 + i as u32, &format!("10.{}.0.0", 1 + i), 16, 16)];
+                ta.children.push(ca);
+            }
+            let spec = TreeSpec { tals: vec![TalSpec { name: "alpha".into(), ta_uri: "rsync://dump.c30.example/repo/ta0.cer".into(), ca: ta, wrong_key: false, https_uri: None }] };
+            let image = Builder::new(&gen, Stale::Reject).build(&spec);
+            let case = Case::new(ctx.scratch.join("c30-dump"));
+            case.publish(&image);
+            case.write_tals(&image);
+            let config = case.config();
+            let out = crate::etree::run(&config, false, &routinator::slurm::LocalExceptions::empty())?;
+            if out.data.origins.len() != 5 { return Err(format!("harness: {} origins validated, expected 5", out.data.origins.len())) }
+            let dump = case.dir.join("dumped");
+            Store::new(&config).map_err(|_| "Store::new".to_string())?.dump(&dump).map_err(|_| "Store::dump failed".to_string())?;
+            let mut dumped: Vec<Vec<u8>> = Vec::new();
+            fn walk(dir: &std::path::Path, out: &mut Vec<Vec<u8>>) {
+                if let Ok(rd) = std::fs::read_dir(dir) { for e in rd.flatten() {
+                    if e.path().is_dir() { walk(&e.path(), out) } else if let Ok(b) = std::fs::read(e.path()) { out.push(b) }
+                }}
+            }
+            walk(&dump.join("store"), &mut dumped);
+            let mut checked = 0;
+            for (uri, content) in &image.files {
+                // everything that is part of a stored publication point
+                if !(uri.ends_with(".mft") || uri.ends_with(".crl") || uri.ends_with(".roa")) { continue }
+                checked += 1;
+                if !dumped.iter().any(|d| d == content) {
+                    return Err(format!("the dumped copy of {uri} is missing (lost or overwritten by another object's file)"))
+                }
+            }
+            let _ = std::fs::remove_dir_all(&case.dir);
+            Ok(checked)
+        }).unwrap_or_else(|p| Err(format!("panic: {p}")));
+        match r {
+            Ok(n) => { rep.extra.insert("dumped_objects_checked".into(), json!(n)); rep.outcome("dump:all-objects-present"); }
+            Err(e) if e.starts_with("harness") => { eprintln!("machinery error: {e}"); std::process::exit(2) }
+            Err(e) => rep.violation("paths:shared:store-dump-object", e, json!({"func": "store dump"})),
         }
     }
     rep.extra.insert("pairs_compared".into(), json!(pairs));
